@@ -190,6 +190,9 @@ type world struct {
 	forkAt   int // B[h] == A[h] for h < forkAt (forkAt = number of shared blocks); B == nil when no fork
 	contracts []felt.Felt
 	baseC0   felt.Felt
+	deployedAt int       // height of the block of A that deployed the contracts (-1: not yet)
+	altC0      felt.Felt // a Cairo-0 class declared on A after the contracts were deployed
+	replaced   bool      // contracts[0] had its class replaced by altC0 (once, on chain A)
 	ref      *simPeer // an untampered server over A (the harness's own reference reader)
 }
 
@@ -206,6 +209,8 @@ func (w *world) blockSpec(h int, sh shape, salt uint64) chainkit.BlockSpec {
 		classes[sh1] = c1
 		if w.baseC0.IsZero() {
 			w.baseC0 = ch
+		} else if salt == 0 && len(w.contracts) > 0 && w.altC0.IsZero() {
+			w.altC0 = ch
 		}
 	}
 	if sh.has('d') {
@@ -216,6 +221,13 @@ func (w *world) blockSpec(h int, sh shape, salt uint64) chainkit.BlockSpec {
 				c := w.baseC0
 				d.DeployedContracts[a] = &c
 			}
+			w.deployedAt = h
+		} else if salt == 0 && !w.replaced && !w.altC0.IsZero() && len(w.contracts) > 0 && h > w.deployedAt {
+			// a replaced class (chain A only: B need not hold the contract): the requesting side tells
+			// "replaced" from "deployed" by looking the contract up in ITS state
+			alt := w.altC0
+			d.ReplacedClasses[w.contracts[0]] = &alt
+			w.replaced = true
 		}
 		addrs := w.contracts
 		if len(addrs) == 0 {
@@ -269,7 +281,7 @@ func (w *world) appendTo(c *chain, sh shape, salt uint64) error {
 // newWorld builds A with the given shapes and, when forkAt >= 0, B = A[0..forkAt-1] ++ own blocks
 // (shapesB for heights forkAt..).
 func newWorld(seed int64, newState bool, shapesA []string, forkAt int, shapesB []string) (*world, error) {
-	w := &world{seed: seed, newState: newState, g: chainkit.NewGen(seed), forkAt: forkAt}
+	w := &world{seed: seed, newState: newState, g: chainkit.NewGen(seed), forkAt: forkAt, deployedAt: -1}
 	w.A = &chain{name: "A", node: chainkit.NewNode(nil, newState)}
 	for _, s := range shapesA {
 		if err := w.appendTo(w.A, shape(s), 0); err != nil {
